@@ -20,20 +20,20 @@ DEFAULT_RULE = ("cases come from harness/src/gen.rs (one SplitMix64 stream seede
 PROPS = {
     "C13": {
         "runs": [{"profile": "c13", "n_quick": 20000, "n_thorough": 400000},
-                 {"profile": "climulti", "kind": "cli", "n_quick": 25, "n_thorough": 400, "nontrivial": "any"},
+                 {"profile": "climulti", "kind": "cli", "n_quick": 40, "n_thorough": 400, "nontrivial": "any"},
                  {"profile": "c02", "n_quick": 3000, "n_thorough": 60000}],
         "observable": "text received by the mock AsyncDB / argv of the command given to the mock's run_command (test directory and clock canonicalised after checking their shape), verdict and error kind of records whose substitution fails; oracle on the implementation alone: one existing test directory per runner, the same for all its records, distinct between runners alive at the same time, gone after drop",
         "explanation": "texts over the documented syntax built from abstract templates: literals incl. { } : multi-byte, $NAME, ${NAME}, ${NAME:default} nested to depth 4, escapes, 10 variable names (locals, environment, unset, special, shadowed), 11 values containing $ \\ { } : ; 1/7 malformed texts (stray \\x, ${, ${}, $ at the end = the dependency's index panic, reproduced by the model); substitution switched on / off at arbitrary points; system commands (simple replacement)",
         "trusted": ["tempfile name freshness and directory removal are OS / crate behaviour: observed, not proved (partial)"],
     },
     "C16": {
-        "runs": [{"profile": "cli16", "kind": "cli", "n_quick": 25, "n_thorough": 500, "nontrivial": "any"}],
+        "runs": [{"profile": "cli16", "kind": "cli", "n_quick": 40, "n_thorough": 500, "nontrivial": "any"}],
         "observable": "exit status, per-file status tags on stdout, <name>-junit.xml (case names, statuses, count) of the real binary driven through --engine external with the fake engine; serial runs are diffed against the model's fold (predicted exit + result per file), every run (serial and -j 1..8) is replayed through the Lean report checker `checkReport` and the event-log monitor",
         "explanation": "sets of 1..12 files with independently chosen outcomes (pass / failing record / result mismatch / parse error / engine dying / connection refused) x serial and -j 1..8 x fail-fast on/off x per-request engine latency 0/5/20 ms",
         "assumptions": ["which interleavings tokio actually produces is not controlled (partial): schedule-dependent runs are judged by the relation, not by equality", "quick-junit XML serialisation and clap are trusted"],
     },
     "C17": {
-        "runs": [{"profile": "cli17", "kind": "cli", "n_quick": 25, "n_thorough": 500, "nontrivial": "any"},
+        "runs": [{"profile": "cli17", "kind": "cli", "n_quick": 40, "n_thorough": 500, "nontrivial": "any"},
                  {"profile": "c17lib", "n_quick": 400, "n_thorough": 20000, "nontrivial": "any"}],
         "observable": "engine-side event log (one O_APPEND log written by every fake-engine process: connect / sql / eof with the database the process was started for, CREATE / DROP DATABASE on the management session), replayed through the Lean monitor `accepts`: create-before-use, unique names, exclusive use (every SQL line carries its file), $__DATABASE__ expansion, at most `jobs` databases with open sessions, close-before-drop, dropped exactly once unless kept / refused, every session closed",
         "explanation": "sets of 1..10 files (pass / fail / die / parse error, several named connections per file, `dbname $__DATABASE__` probes) x -j 1..8 x keep-on-failure on/off x latency 0/3/10/30 ms to vary interleavings",
@@ -41,7 +41,7 @@ PROPS = {
                         "library counterpart: Runner::run_parallel_async in-process against a logging AsyncDB whose every request yields to the executor a seeded pseudo-random number of times (deterministic schedules, 1..12 files incl. names that differ only in replaced characters, jobs 1..8 in turn); its log is renamed injectively into the monitor's naming scheme (database -> file by first use) and judged by the same monitor; the database name of the k-th file is compared with the model's libDbName"],
     },
     "C19": {
-        "runs": [{"profile": "cli19", "kind": "cli", "n_quick": 5, "n_thorough": 60, "nontrivial": "any"}],
+        "runs": [{"profile": "cli19", "kind": "cli", "n_quick": 8, "n_thorough": 60, "nontrivial": "any"}],
         "observable": "real binary, serial and -j 2/3; the fake engine sends SIGINT to the CLI when it receives its k-th request, for every k (quick: 5 sampled k per file set); fail-fast with the first failing file at every position (parallel: among the first `jobs`); engine event log + exit status + status tags + JUnit, replayed through the monitor with the cancellation anchor (signal + 250 ms slack) and judged by deterministic rules where the schedule is forced (serial: every file after the one in flight is skipped without traffic; parallel fail-fast: every file beyond the first `jobs` is skipped without traffic)",
         "explanation": "per-request latency 150 ms (Ctrl-C runs) / 60 ms (parallel fail-fast) so that cancellation is processed long before another file could complete",
         "assumptions": ["latency between signal and cancellation, the wall-clock bound (25 s per run enforced by the harness) and task abortion by tokio are runtime behaviour the model cannot exhibit (partial)"],
@@ -59,7 +59,7 @@ PROPS = {
     },
     "C14": {
         "runs": [{"profile": "c14", "n_quick": 1500, "n_thorough": 30000, "nontrivial": "include", "oracle": "c14"},
-                 {"profile": "climulti", "kind": "cli", "n_quick": 25, "n_thorough": 400, "nontrivial": "any"}],
+                 {"profile": "climulti", "kind": "cli", "n_quick": 40, "n_thorough": 400, "nontrivial": "any"}],
         "observable": "every record of parse_file with its file, line and chain of include sites (Display of Location), marker sequence | err kind + located chain; then the call trace of Runner::run_file on the tree (execution order)",
         "explanation": "random trees on disk: up to 5 first-level and 3 second-level directories whose names make string order differ from path order (a, a-b, a.b, A), 6 file names, several includes per file, patterns literal / *.s* / x? / */x.slt / ./a/../a/x.slt / ../../shared/..., ~40% patterns matching nothing, parse errors inside included files, missing root, halt",
         "trusted": ["glob crate beyond the modelled subset (literal, *, ? per component); patterns that match directories or non-UTF-8 files and include cycles crash the real parser and are outside the property (DESIGN section 8)"],
@@ -68,8 +68,8 @@ PROPS = {
         "runs": [
             {"profile": "updatecorner", "n_quick": 0, "n_thorough": 0, "nontrivial": "update"},
             {"profile": "update", "n_quick": 2500, "n_thorough": 60000, "nontrivial": "update"},
-            {"profile": "cliupd", "kind": "cli", "n_quick": 15, "n_thorough": 300, "nontrivial": "update"},
-            {"profile": "climulti", "kind": "cli", "n_quick": 25, "n_thorough": 400, "nontrivial": "any"},
+            {"profile": "cliupd", "kind": "cli", "n_quick": 25, "n_thorough": 300, "nontrivial": "update"},
+            {"profile": "climulti", "kind": "cli", "n_quick": 40, "n_thorough": 400, "nontrivial": "any"},
         ],
         "observable": "bytes of every file of the tree after Runner::update_test_file; oracle on the implementation alone (representable answers only): the rewritten tree parses, Runner::run_file with a fresh instance of the same scripted database returns Ok, a second update leaves every byte unchanged",
         "explanation": "random include trees with ~50% wrong expectations (see C07) + 5 corner cases at the excluded points of the theorems (values with non-ASCII edge white space, empty value, query error [retry] on an engine without column types); cases whose answers are not representable in the format (failing commands, three consecutive newlines in an error text / stdout, CR) are generated, compared with the model, and not judged by the re-run oracle",
@@ -88,8 +88,8 @@ PROPS = {
     },
     "C07": {
         "runs": [{"profile": "update", "n_quick": 2500, "n_thorough": 60000, "nontrivial": "update"},
-                 {"profile": "cliupd", "kind": "cli", "n_quick": 15, "n_thorough": 300, "nontrivial": "update"},
-                 {"profile": "climulti", "kind": "cli", "n_quick": 25, "n_thorough": 400, "nontrivial": "any"}],
+                 {"profile": "cliupd", "kind": "cli", "n_quick": 25, "n_thorough": 300, "nontrivial": "update"},
+                 {"profile": "climulti", "kind": "cli", "n_quick": 40, "n_thorough": 400, "nontrivial": "any"}],
         "observable": "bytes of every file of the tree after Runner::update_test_file (real files, include trees), database call trace; oracle on the implementation alone: parse(before) vs parse(after) agree on every field but the expectation",
         "explanation": "random include trees (root + 0..3 included files, depth <= 2, glob and literal includes) with records of all kinds, ~50% wrong expectations, halts, controls, guards, named connections, retry clauses, failing connections; both separators; strict and default column validator",
     },
@@ -100,7 +100,7 @@ PROPS = {
     },
     "C05": {
         "runs": [{"profile": "c05", "n_quick": 12000, "n_thorough": 250000, "nontrivial": "fmt"},
-                 {"profile": "cliupd", "kind": "cli", "n_quick": 15, "n_thorough": 300, "nontrivial": "update"},
+                 {"profile": "cliupd", "kind": "cli", "n_quick": 25, "n_thorough": 300, "nontrivial": "update"},
                  # what --override writes (expectations built from actual answers) must be written the way
                  # the model writes it: bytes after Runner::update_test_file
                  {"profile": "update", "n_quick": 1000, "n_thorough": 20000, "nontrivial": "update"}],
@@ -128,14 +128,14 @@ PROPS = {
     },
     "C02": {
         "runs": [{"profile": "c02", "n_quick": 6000, "n_thorough": 120000},
-                 {"profile": "climulti", "kind": "cli", "n_quick": 25, "n_thorough": 400, "nontrivial": "any"},
+                 {"profile": "climulti", "kind": "cli", "n_quick": 40, "n_thorough": 400, "nontrivial": "any"},
                  {"profile": "c14", "n_quick": 600, "n_thorough": 10000, "nontrivial": "include"}],
         "observable": "ordered trace of (session, sql) / command / sleep events, result, failing line, kind and payload",
         "explanation": "random scripts of 1..12 records of all kinds, mostly passing, first failing record and halt at random positions, failing connections, local variables set while substitution is off",
     },
     "C12": {
         "runs": [{"profile": "c12", "n_quick": 6000, "n_thorough": 120000},
-                 {"profile": "climulti", "kind": "cli", "n_quick": 25, "n_thorough": 400, "nontrivial": "any"},
+                 {"profile": "climulti", "kind": "cli", "n_quick": 40, "n_thorough": 400, "nontrivial": "any"},
                  {"profile": "c02", "n_quick": 3000, "n_thorough": 60000},
                  {"profile": "cli17", "kind": "cli", "n_quick": 10, "n_thorough": 100, "nontrivial": "any"}],
         "observable": "MakeConnection invocations in order, session id per call (the mock answers every query with [session id, earlier calls on that session]), per-session order, multiset of sessions shut down",
@@ -145,7 +145,7 @@ PROPS = {
         "runs": [{"profile": "c09", "n_quick": 300, "n_thorough": 20000, "exhaustive": True, "oracle": "c09"},
                  {"profile": "c02", "n_quick": 3000, "n_thorough": 60000},
                  # the CLI's own engine wrapper and run loop: answers that change between attempts
-                 {"profile": "climulti", "kind": "cli", "n_quick": 25, "n_thorough": 400, "nontrivial": "any"}],
+                 {"profile": "climulti", "kind": "cli", "n_quick": 40, "n_thorough": 400, "nontrivial": "any"}],
         "observable": "verdict + failing line + ordered trace of (session, sql) / command / sleep events",
         "exhaustive": True,
         "explanation": "exhaustive: N in 1..6 x all 2^N outcome sequences x 6 record kinds x 3 backoffs; random part: N in 7..24",
@@ -153,7 +153,7 @@ PROPS = {
     },
     "C10": {
         "runs": [{"profile": "c10", "n_quick": 1500, "n_thorough": 40000, "exhaustive": True, "oracle": "c10"},
-                 {"profile": "climulti", "kind": "cli", "n_quick": 25, "n_thorough": 400, "nontrivial": "any"},
+                 {"profile": "climulti", "kind": "cli", "n_quick": 40, "n_thorough": 400, "nontrivial": "any"},
                  {"profile": "c02", "n_quick": 3000, "n_thorough": 60000},
                  {"profile": "c17lib", "n_quick": 300, "n_thorough": 10000, "nontrivial": "any"}],
         "observable": "verdict (+ failure kind) of the query for the permuted answer",
@@ -162,7 +162,7 @@ PROPS = {
     },
     "C11": {
         "runs": [{"profile": "c11", "n_quick": 3000, "n_thorough": 3000, "exhaustive": True, "oracle": "c11"},
-                 {"profile": "climulti", "kind": "cli", "n_quick": 25, "n_thorough": 400, "nontrivial": "any"},
+                 {"profile": "climulti", "kind": "cli", "n_quick": 40, "n_thorough": 400, "nontrivial": "any"},
                  {"profile": "c17lib", "n_quick": 300, "n_thorough": 10000, "nontrivial": "any"},
                  {"profile": "c02", "n_quick": 3000, "n_thorough": 60000}],
         "observable": "executed? (call log), verdict",
@@ -171,7 +171,7 @@ PROPS = {
     },
     "C15": {
         "runs": [{"profile": "c15", "n_quick": 6000, "n_thorough": 200000, "oracle": "c15"},
-                 {"profile": "climulti", "kind": "cli", "n_quick": 25, "n_thorough": 400, "nontrivial": "any"},
+                 {"profile": "climulti", "kind": "cli", "n_quick": 40, "n_thorough": 400, "nontrivial": "any"},
                  {"profile": "c17lib", "n_quick": 300, "n_thorough": 10000, "nontrivial": "any"},
                  {"profile": "c02", "n_quick": 3000, "n_thorough": 60000}],
         "observable": "verdict against an expectation holding the reference digest computed by the harness with the md-5 crate on the reference value order",
